@@ -832,6 +832,24 @@ def ecModelCS [Add K] [Sub K] [Mul K] [Div K] [Neg K] [One K] [OfNat K 0] [IntCa
   | none => none
   | some nc => ecModel fac u (fun _ => nc) c
 
+/-! ### the other API-level round trips: writer → text encoding → reader -/
+
+/-- `uc.value_unit(text(uc.model(a, units)))`. -/
+def valueDumpLoad [Mul K] [Div K] [One K] [IntCast K] (facW facR : String → K) (via : String) (units : Option String)
+    (a : Arr K) : Option (Arr K) :=
+  ((ucModel facW units a).bind (encode via)).bind (valueUnit facR)
+
+/-- `Box(model=text(box.model(length_unit=u)))`. -/
+def boxDumpLoad [Mul K] [Div K] [Neg K] [One K] [OfNat K 0] [IntCast K] [LT K] [DecidableLT K]
+    (facW facR : String → K) (eps : K) (via : String) (u : Option String) (b : Box K) : Option (Box K) :=
+  ((boxModel facW u b).bind (encode via)).bind (boxRead facR eps)
+
+/-- `ElasticConstants(model=text(ec.model(unit=u, crystal_system=cs)))`. -/
+def ecDumpLoad [Add K] [Sub K] [Mul K] [Div K] [Neg K] [One K] [OfNat K 0] [IntCast K] [LT K] [DecidableLT K]
+    (facW facR : String → K) (eps atol rtol : K) (via : String) (u : Option String) (muK : Option (K × K))
+    (cs : String) (c : List K) : Option (List K) :=
+  ((ecModelCS facW u eps atol rtol muK cs c).bind (encode via)).bind (ecRead facR eps atol rtol)
+
 /-! ### objects with state
 
   A `Box` object keeps `__reciprocal_vects` once `reciprocal_vects` was asked for (by
